@@ -120,26 +120,28 @@ func (its *WiredDatatype) calculatePullingOperations(newCheckPoint *model.CheckP
 
 func (its *WiredDatatype) checkOptionAndError(ppp *model.PushPullPack) errors.OrdaError {
 	if ppp.GetPushPullPackOption().HasErrorBit() {
+		if len(ppp.GetOperations()) == 0 {
+			return errors.ClientSync.New(its.L(), fmt.Sprintf("%s: error response without an error operation", its.Key))
+		}
 		modelOp := ppp.GetOperations()[0]
 		errOp, ok := operations.ModelToOperation(modelOp).(*operations.ErrorOperation)
 		if ok {
 			switch errOp.GetPushPullError().Code {
-			case errors.PushPullAbortionOfServer:
-				// TODO: implement me.
-			case errors.PushPullAbortionOfClient:
-				// TODO: implement me.
 			case errors.PushPullDuplicateKey:
 				return errors.DatatypeCreate.New(its.L(), fmt.Sprintf("duplicated key:'%s'", its.Key))
-			case errors.PushPullMissingOps:
-				// TODO: implement me.
 			case errors.PushPullNoDatatypeToSubscribe:
 				return errors.DatatypeSubscribe.New(its.L(), fmt.Sprintf("%v", errOp.GetPushPullError().Msg))
 			}
-			panic("Not implemented yet")
-		} else {
-			panic("Not implemented yet")
+			// PushPullAbortionOfServer, PushPullAbortionOfClient, PushPullMissingOps and anything a
+			// newer server may send: nothing of the pack is applied, the error goes to the error
+			// handler, and the next Sync tries again from the unchanged checkpoint.
+			return errors.ClientSync.New(its.L(), fmt.Sprintf("%s: the server refused the push-pull: %v", its.Key, errOp.GetPushPullError().Msg))
 		}
+		return errors.ClientSync.New(its.L(), fmt.Sprintf("%s: error response without an error operation", its.Key))
 	} else if ppp.GetPushPullPackOption().HasSubscribeBit() {
+		if len(ppp.GetOperations()) == 0 {
+			return errors.DatatypeSubscribe.New(its.L(), "subscribe without SnapshotOp")
+		}
 		modelOp := ppp.GetOperations()[0]
 		_, ok := operations.ModelToOperation(modelOp).(*operations.SnapshotOperation)
 		if !ok {
